@@ -81,12 +81,20 @@ def run(tier: str) -> int:
         progs = gen_coro.programs(tier, rep.seed)
         budget = 150 if tier == "quick" else 2400
         t0 = time.time()
-        done = 0
-        for prog in progs:
-            if time.time() - t0 > budget:
-                break
-            done += 1
-            r = check_program(rep, wd, prog, K)
+        def job(i, rw, wdw):
+            r = check_program(rw, wdw, progs[i], K)
+            keep = {k: r[k] for k in ("status", "why", "clock", "log", "trace", "init", "vhdl", "hash", "nstates") if k in r}
+            if "pairs" in r:
+                keep["pairs"] = [list(p) for p in r["pairs"]]
+            return keep
+
+        from ..core import parallel_programs
+        results = parallel_programs(rep, len(progs), job, deadline=t0 + budget)
+        done = len(results)
+        for i in sorted(results):
+            prog, r = progs[i], results[i]
+            if r["status"] == "worker-error":
+                r = {"status": "inconclusive", "why": r["why"]}
             s = r["status"]
             counts[s] = counts.get(s, 0) + 1
             if s == "violation":
